@@ -165,8 +165,9 @@ def run_terms(ctx, res, jinja2):
             res.violate(f"C15:leak:{c['mode']}", f"raw markup character from data/literal in the output {out!r} (mode {c['mode']}, data {c['data']}, "
                         f"main template {tpl[main]!r}); model {m_on!r}", replay)
         elif out != m_on:
-            res.violate("C15:model-difference", f"mode {c['mode']}: render {out!r}, model {m_on!r} (output is still free of raw markup "
-                        "characters)", replay, no_input=True)
+            res.violate("C15:model-difference", f"mode {c['mode']}: render {out!r}, model {m_on!r} — the output is still free of raw markup "
+                        "characters, so this is not a leak (C15's statement holds on this input); a different amount of escaping is C16's / "
+                        "C24's matter", replay, no_input=True)
     return {"renders": len(cases), "nontrivial": len(nontrivial), "mode_distribution": modes, "spellings_used": used_all,
             "constructor_distribution": kinds, "raised": raised,
             "samples": [{"term": core.sx(T.enc(cases[0]["term"])), "data": cases[0]["data"], "mode": cases[0]["mode"], "templates": outs[0][1]}]}
